@@ -657,6 +657,29 @@ void vector_roundtrip()
         }
         VF_COUNT("vector/sequences-in-one-stream");
       }
+      // writer and reader configured alike with a non-default integer base (the components are formatted by the
+      // stream the caller handed in, with its flags): components 0..400, so that digits beyond 9 / 7 occur
+      for (int base = 0; base < 3; ++base)
+      {
+        auto big = v;
+        for (std::size_t i = 0; i < N; ++i)
+          big.get_unsafe(i) = (v.get_unsafe(i) + 2) * 100;
+        auto const conf = [base](std::ios_base &st) {
+          st.setf(base == 0 ? std::ios_base::hex : std::ios_base::oct, std::ios_base::basefield);
+          if (base == 2)
+            st.setf(std::ios_base::showbase);
+        };
+        std::ostringstream hos;
+        conf(hos);
+        hos << big;
+        std::istringstream his(hos.str());
+        conf(his);
+        auto z = zero;
+        his >> z;
+        if (his.fail() || !(z == big))
+          vf::violation(e + "/" + what + "/non-decimal-base-roundtrip", "mismatch", "wrote \"" + hos.str() + "\" under " + (base == 0 ? "hex" : base == 1 ? "oct" : "oct+showbase"));
+        VF_COUNT("vector/non-decimal-base-roundtrips");
+      }
     };
     if constexpr (N == 1)
     {
@@ -939,7 +962,7 @@ void io_string_wrappers()
 
 void body()
 {
-  for (char const *b : {"io/write-read", "vector/sequences-in-one-stream", "io/read-from-failed-stream", "text/grouping-locale/written-with-separator", "text/roundtrips", "text/char-types", "text/malformed", "enum/roundtrips", "enum/non-names",
+  for (char const *b : {"io/write-read", "vector/sequences-in-one-stream", "vector/non-decimal-base-roundtrips", "io/read-from-failed-stream", "text/grouping-locale/written-with-separator", "text/roundtrips", "text/char-types", "text/malformed", "enum/roundtrips", "enum/non-names",
                         "vector/roundtrips", "vector/malformed", "utf8/strings", "utf8/scalars-singly", "utf8/narrow-growth/x4",
                         "utf8/narrow-growth/x2-3", "utf8/narrow-growth/lt-x2", "utf8/incomplete-input", "utf8/invalid-input",
                         "utf8/env-locale-strings", "io-string/roundtrips"})
